@@ -331,7 +331,11 @@ Unvisited(C, vis) == { x \in C.N : x \notin vis /\ ~C.IsTerm[x] }
 RootChoices(inp, C, vis, taken) ==
   IF "roots" \in DOMAIN inp
   THEN LET idxs == { i \in 1..Len(inp.roots) : inp.roots[i] \in Unvisited(C, vis) }
-       IN IF idxs = {} THEN Unvisited(C, vis) ELSE { inp.roots[CHOOSE i \in idxs : \A j \in idxs : i <= j] }
+       IN IF idxs # {} THEN { inp.roots[CHOOSE i \in idxs : \A j \in idxs : i <= j] }
+          \* a recorded trace (inp.strict) lists every root the real run took: if the Impl layer needs more roots than the
+          \* run logged, the two have parted already (the driver compares the outcomes) - continue in one fixed order
+          ELSE IF "strict" \in DOMAIN inp THEN { CHOOSE n \in Unvisited(C, vis) : TRUE }
+          ELSE Unvisited(C, vis)
   ELSE Unvisited(C, vis)
 
 \* output projections (sets of tuples: JSON friendly, order free)
